@@ -655,3 +655,16 @@ def undecided_job(name, reason, funcs=()):
         raise Undecided(_r)
     j.static_fn = fn
     return j
+
+
+def rejected_job(name, modname, r, module_hex=""):
+    """The translator rejected (or crashed on) a probe module.  The probe modules are valid WebAssembly by construction and are accepted by the translator of
+    the unchanged tree, and every listed property is stated "for every valid module": a rejection is reported as a violation of its own,
+    with the translator's exit status and message and the module bytes in the replay file."""
+    j = Job(name, src=None, solver="static", funcs=["w2c2 binary (reader + code generator) on the probe module %s" % modname])
+    def fn(ctx, job, _r=r, _m=modname, _h=module_hex):
+        rc = getattr(_r, "returncode", None)
+        msg = ((getattr(_r, "stdout", b"") or b"") + (getattr(_r, "stderr", b"") or b"")).decode(errors="replace")[-600:]
+        return [("the translator accepts the valid probe module %s (exit status 0)" % _m, False, "exit status %s: %s module_hex=%s" % (rc, msg, _h[:4000]))]
+    j.static_fn = fn
+    return j
